@@ -87,7 +87,7 @@ def run_engines(ck, b, progs, want_native=True, styles=('prefix',)):
     return res
 
 
-def check_programs(ck, b, nv, progs, feats, stream, want_native=True):
+def check_programs(ck, b, nv, progs, feats, stream, want_native=True, ties=True):
     """stream: 'gen' | 'witness'.  Returns number of failures recorded."""
     sx = [progen.to_sexp(p) for _, p in progs]
     ref = langlib.model_many(nv, 'ref', sx)
@@ -125,7 +125,7 @@ def check_programs(ck, b, nv, progs, feats, stream, want_native=True):
                 nfail += 1
         # ---- ties (model vs implementation); a broken tie with the property intact is still reported.
         # Witnesses of OPEN findings are exempt: the finding says the engine deviates there and the models need not mirror a defect.
-        if stream == 'witness' and pid in {k['key'] for k in ck.known}:
+        if not ties or (stream == 'witness' and pid in {k['key'] for k in ck.known}):
             continue
         if R['dump'] is None:
             if R['vm']['cls'] not in ('rejected',):
@@ -134,7 +134,7 @@ def check_programs(ck, b, nv, progs, feats, stream, want_native=True):
         elif mc != R['dump']:
             ck.extra['tie_breaks']['bytecode'] += 1
             ck.fail(key + ':tie-bytecode', 'correspondence broken: VmCompile model bytecode != real bytecode (no-failing-input-found unless an engine line above)',
-                    dict(rep, correspondence='Back.VmCompile.compile_program vs nano_virt --emit-nvm', model=mc[:4000], real=R['dump'][:4000]))
+                    dict(rep, correspondence='Back.VmCompile.compile_program vs nano_virt --emit-nvm', model=mc[:4000], real=R['dump'][:4000]), tie=True)
             nfail += 1
         else:
             ck.extra['ties_ok']['bytecode'] += 1
@@ -143,7 +143,7 @@ def check_programs(ck, b, nv, progs, feats, stream, want_native=True):
         if not same_model(mr, R['vm']):
             ck.extra['tie_breaks']['vmrun'] += 1
             ck.fail(key + ':tie-vmrun', 'correspondence broken: VmExec model run != real VM run: model=%s real=%s/%s' % (mr['cls'], R['vm']['cls'], R['vm']['rc']),
-                    dict(rep, correspondence='Back.VmExec.run_vm vs nano_virt --run', model=mr.get('raw', mr['cls']), real=dict(cls=R['vm']['cls'], rc=R['vm']['rc'], out=R['vm']['out'].decode('latin1'))))
+                    dict(rep, correspondence='Back.VmExec.run_vm vs nano_virt --run', model=mr.get('raw', mr['cls']), real=dict(cls=R['vm']['cls'], rc=R['vm']['rc'], out=R['vm']['out'].decode('latin1'))), tie=True)
             nfail += 1
         else:
             ck.extra['ties_ok']['vmrun'] += 1
@@ -152,7 +152,7 @@ def check_programs(ck, b, nv, progs, feats, stream, want_native=True):
                 ck.extra['tie_breaks']['native'] += 1
                 ck.fail(key + ':tie-native', 'correspondence broken: NatSem model run != real native run: model=%s real=%s/%s' % (mn['cls'], R['nat']['cls'], R['nat']['rc']),
                         dict(rep, correspondence='Back.NatSem.run_nat RtoL vs nanoc binary', model=mn.get('raw', mn['cls']),
-                             real=dict(cls=R['nat']['cls'], rc=R['nat']['rc'], out=R['nat']['out'].decode('latin1'), err=R['nat']['err'][-600:])))
+                             real=dict(cls=R['nat']['cls'], rc=R['nat']['rc'], out=R['nat']['out'].decode('latin1'), err=R['nat']['err'][-600:])), tie=True)
                 nfail += 1
             else:
                 ck.extra['ties_ok']['native'] += 1
@@ -326,6 +326,23 @@ def run(ck):
         progs.append((pid, p)); feats[pid] = dict(g.feat)
     check_programs(ck, b, nv, progs, feats, 'gen')
     nanocore_part(ck, b, nv)
+    # a correspondence broke but every program so far behaved as the reference says: search harder for an input on which the
+    # PROPERTY fails on the implementation (deeper nesting, more loops/breaks, more statements), models not consulted
+    open_keys = {k['key'] for k in ck.known}
+    tie_broken = [f for f in ck.failures if f.get('tie') and f['key'] not in open_keys]
+    prop_failed = [f for f in ck.failures if not f.get('tie') and f['key'] not in open_keys]
+    if tie_broken and not prop_failed:
+        ck.note('correspondence broken (%d inputs), no property failure yet: escalating the search' % len(tie_broken))
+        deep = progen.Cfg(**{k: v for k, v in cfg.__dict__.items()})
+        deep.max_depth = 5; deep.max_stmts = 8; deep.max_fns = 5
+        sprogs, sfeats = [], {}
+        for i in range(300 if ck.thorough else 120):
+            g = progen.Gen(random.Random(ck.seed * 977 + 50000 + i), deep)
+            p = g.gen_program()
+            pid = 'search%d-%d' % (ck.seed, i)
+            sprogs.append((pid, p)); sfeats[pid] = dict(g.feat)
+        check_programs(ck, b, nv, sprogs, sfeats, 'gen', ties=False)
+        ck.extra['escalated_search_programs'] = len(sprogs)
     ck.sample(dict(program=progen.to_nano(progs[0][1])[:1500], sexp=progen.to_sexp(progs[0][1])[:600]))
     ck.cov['rule'] = ('witness programs of every recorded finding + operator table (all binary/unary operators x pairs of INT64 boundary operands, '
                       'through identity calls so the C compiler cannot fold) + type-directed random programs (progen.py: effects in operands, '
